@@ -21,12 +21,12 @@ CHECKS = {
          "Open snapshots, child snapshots, store snapshots and partially advanced iterators are re-read in full (memory faults trapped) after every later step, including after full compactions that unlink their file and after Collection.Close/Store.Close.",
          "Iterators and child snapshots opened from a collection snapshot are closed before that snapshot (the property promises them only while it is open); store-snapshot iterators are kept open past their snapshot.", "3/C02"),
  "C04": ("exploration", "steered close/reopen + canonical-hash prefix identification",
-         "Reopened content is identified by canonical hash against the table of all prefix states; caught-up closes must yield exactly all batches, early/mid closes a prefix not older than what the store had exposed. One case in five reopens without waiting for the closed instance's asynchronous unlinks.",
+         "Reopened content is identified by canonical hash against the table of all prefix states; caught-up closes must yield exactly all batches, early/mid closes a prefix not older than what the store had exposed. One case in five reopens without waiting for the closed instance's asynchronous unlinks. Close kinds include Store.CloseEx(Abort) with a round parked in mid-flight.",
          "Caught-up = 3 directed merger+persister iterations after the last batch (decided by steps, not by gauges).", "3/C04"),
  "C07": ("exploration", "steered persistence rounds + store-content / post-compaction shape monitors + directory check at quiescence",
          "After every completed round the store snapshot must be a non-decreasing prefix state; after each full compaction no deletion marker, no repeated key, nothing above segment level 0, num_segments <= 1 (recursively in children); at the end exactly one data file.", "Round kind is read from Store.Stats deltas.", "3/C07"),
  "C08": ("exploration", "steered execution + left-fold model with an order-sensitive, nil-revealing merge operator",
-         "Get and iterator values of merged keys are compared with the model fold after every step and after reopen, for operands spread over sections, persisted segments, compactions, custom lower level and child collections.", "The operator is the harness's own; PartialMerge always refuses.", "3/C08"),
+         "Get and iterator values of merged keys are compared with the model fold after every step and after reopen, for operands spread over sections, persisted segments, compactions, custom lower level and child collections (nested two deep), including operands folding to the empty value and phases in which the operator refuses to merge.", "The operator is the harness's own; PartialMerge always refuses.", "3/C08"),
  "C10": ("exploration", "steered execution + cross-read-path agreement monitor",
          "Collection.Get, Snapshot.Get (each with and without NoCopyValue) and the iterator entry are compared pairwise for every top-level universe key after every step; copying-Get results are re-checked after everything is closed.", "Agreement is relational (no model involved).", "3/C10"),
  "C11": ("exploration", "steered execution + model tree comparison (collection, store, reopen)",
